@@ -87,8 +87,12 @@ Inductive role := RClient | RComponent.
 Inductive conn := CNone | CFresh | CUp.
 Definition is_up (c : conn) : bool := match c with CUp => true | _ => false end.
 
-(* c_sm: Config.StreamManagementEnable (clients only); c_log: a log file is set
-   (readWriter = streamLogger) *)
+(* c_sm: the stream management bookkeeping is active: Config.StreamManagementEnable
+   and the client has a session object (before Connect and after a failed Connect or
+   Resume there is none: nothing is held then and the write goes ahead; clients
+   only); c_log: a log file is set (readWriter = streamLogger).  CFresh stands for
+   any transport object without a connection: XMPPTransport with readWriter == nil,
+   WebsocketTransport with wsConn == nil; both return an error and write nothing. *)
 Record config := mkC { c_role : role; c_sm : bool; c_log : bool; c_conn : conn }.
 
 (* XMPPTransport.Write = readWriter.Write (an error when readWriter is nil);
